@@ -69,7 +69,7 @@ for f in sorted(byfile):
     det.write("%-28s %5d/%5d lines executed (%.1f%%)  never: %s\n" % (f, h, n, 100.0 * h / max(1, n), ranges(miss)))
 print("TOTAL %d/%d (%.1f%%)" % (tot[1], tot[0], 100.0 * tot[1] / max(1, tot[0])))
 nf = sorted("%s:%s" % (k[0], k[1]) for k, c in funcs.items() if c == 0)
-print("functions never entered (%d):" % len(nf), ", ".join(nf))
+print("functions never entered: %d (listed in the details file)" % len(nf))
 det.write("functions never entered: " + ", ".join(nf) + "\n")
 nb = sorted((k[0], k[1]) for k, c in branches.items() if c == 0 and lines.get((k[0], k[1]), 0) > 0)
 bl = {}
